@@ -28,7 +28,7 @@ func init() {
 				"R7: no handler of the pipeline modifies the EDNS data (OPT record, Extra section) of the request message it received (directly or through a callee): the writers read the client's EDNS size, DO bit and options from that very object.",
 			NotCovered: "that dns.Msg.Truncate really fits the size and the encoded sizes themselves; the up-to-36-byte padding " +
 				"overshoot on DoH acknowledged in a code comment (numeric, out of static reach).",
-			Rules: map[string]string{"C08-R15": "the simple cache leaves the cached OPT record out of a hit (hop-by-hop options of the first requester do not reach later clients)", "C08-R16": "genErrorResponse builds the server's own error answers by SetRcode alone, so normalize gives them a fresh OPT record", "C08-R14": "optCloner.clone resets every field of the pooled OPT record, so padding and keep-alive options of an earlier response do not reach another client (shared with C07-R1)", "C08-RC": "class rules (error chains, shadowed results, character classes, crossed arguments, pool constructors, array pools, loop completeness, loop-carried buffers, replacing setters, complete clones, Grow arithmetic, pooled-buffer escape, sorted searches, fresh decode targets, per-iteration objects, whole-message copies, codec guards) over the packages this property rests on", "C08-R13": "addEDE builds a fresh response OPT from the request's UDP size and DO bit only", "C08-R12": "the filtered response is written once and for the original request (pipeline table shared with C01-R10)", "C08-R1": "normalise-before-serialise in every wire writer", "C08-R2": "maxDNSSize over all orderings",
+			Rules: map[string]string{"C08-R17": "a pooled receive buffer is returned only after the request decoded from it has been served (buffer-lifetime rules shared with C06-R2)", "C08-R15": "the simple cache leaves the cached OPT record out of a hit (hop-by-hop options of the first requester do not reach later clients)", "C08-R16": "genErrorResponse builds the server's own error answers by SetRcode alone, so normalize gives them a fresh OPT record", "C08-R14": "optCloner.clone resets every field of the pooled OPT record, so padding and keep-alive options of an earlier response do not reach another client (shared with C07-R1)", "C08-RC": "class rules (error chains, shadowed results, character classes, crossed arguments, pool constructors, array pools, loop completeness, loop-carried buffers, replacing setters, complete clones, Grow arithmetic, pooled-buffer escape, sorted searches, fresh decode targets, per-iteration objects, whole-message copies, codec guards) over the packages this property rests on", "C08-R13": "addEDE builds a fresh response OPT from the request's UDP size and DO bit only", "C08-R12": "the filtered response is written once and for the original request (pipeline table shared with C01-R10)", "C08-R1": "normalise-before-serialise in every wire writer", "C08-R2": "maxDNSSize over all orderings",
 				"C08-R3": "truncate / packWithPrefix gates", "C08-R4": "normalize decision tree and OPT fields",
 				"C08-R5": "padding / keep-alive / option filter gates", "C08-R6": "pooled OPT records are reset before reuse", "C08-R7": "no handler modifies the EDNS data of the request message"},
 		}})
@@ -36,6 +36,10 @@ func init() {
 
 func runC08(c *an.Ctx) {
 	classSweep(c, "C08")
+	// ---- R17: the bytes of a datagram stay that request's own until it has been served: what is answered is sized by
+	// this client's EDNS settings, not by those of the datagram that overwrote the buffer (shared with C06-R2)
+	c.Floor("C08-R17", 2)
+	c.Borrow("C08-R17", runC06, func(o an.Obligation) bool { return o.Rule == "C06-R2" })
 	// ---- R15: a hit of the simple cache does not replay the cached OPT record; R16: the server's own error responses get a fresh OPT record
 	c.Floor("C08-R15", 1)
 	c08CacheHitNoOPT(c, "C08-R15")
@@ -431,10 +435,12 @@ func runC08(c *an.Ctx) {
 				return "exactly one write"
 			}
 			if !f.B("written") {
-				if writes[0] == "nonnil:errResp" {
-					return ""
+				// the server's own SERVFAIL is normalised like the DoQ one: a query with an OPT record gets one back
+				n := normCall(o, "dnsserver.normalize", "net(p1.LocalAddr())", fmt.Sprint(pCrypt), "p2", "nonnil:errResp", fmt.Sprint(maxMsg))
+				if writes[0] != "nonnil:errResp" || n < 0 || n > wi {
+					return "SERVFAIL when nothing was written, normalised (OPT echo, size) like every other response before it is written"
 				}
-				return "SERVFAIL when nothing was written"
+				return ""
 			}
 			n := normCall(o, "dnsserver.normalize", "net(p1.LocalAddr())", fmt.Sprint(pCrypt), "p2", "nonnil:recorded", fmt.Sprint(maxMsg))
 			if n < 0 || n > wi || writes[0] != "nonnil:recorded" {
